@@ -7319,7 +7319,10 @@ def expr_value(expr: Union[Symbol, Choice, Tuple]) -> int:
     else:
         # Otherwise, try to compare them as numbers
         try:
-            comp = _sym_to_num(v1) - _sym_to_num(v2)
+            num1, num2 = _sym_to_num(v1), _sym_to_num(v2)
+            # Only the sign of 'comp' is used. Comparing is exact for any mix of int and float; subtracting
+            # would raise OverflowError for an int beyond the float range (e.g. 10**350 - 1.5)
+            comp = (num1 > num2) - (num1 < num2)
         except ValueError:
             # Fall back on a lexicographic comparison if the operands don't
             # parse as numbers
